@@ -206,4 +206,14 @@ def check_config(ctx, F, tag):
     if ok:
         v, w = core(fb.term_of_operand(pi[0][1]["args"][1])), core(fb.term_of_operand(pi[0][1]["args"][2]))
         ok = v[0] == "field" and w[0] == "field" and v[1] == w[1] and (v[2], w[2]) == ("0", "1")
-    ctx.ob("C12.R3.overflow-carried-back", RW + "::flush" + tag, loc(fb.raw["span"]), ok, "term-shape+dominance", "after clear(), the saved overflow (value, width) pair is pushed back: %s" % ok)
+    guard_ok = False
+    guard_detail = "no guard"
+    if ok:
+        # the push-back happens whenever the saved width is non-zero: its guard tests the width component, never the value
+        fs = facts_at(fb, pi[0][0])
+        on_width = [f for f in fs if f[0] == "cmp" and core(f[2])[0] == "field" and core(f[2])[1] == v[1] and core(f[2])[2] == "1" and f[1] in ("Gt", "Ne") and m(Const(0), f[3])]
+        on_value = [f for f in fs if f[0] == "cmp" and any(x[0] == "field" and x[1] == v[1] and x[2] == "0" for x in list(subterms(f[2])) + list(subterms(f[3])))]
+        guard_ok = bool(on_width) and not on_value
+        guard_detail = "guards on the saved pair: width component %d, value component %d" % (len(on_width), len(on_value))
+    ctx.ob("C12.R3.overflow-carried-back", RW + "::flush" + tag, loc(fb.raw["span"]), ok and guard_ok, "term-shape+dominance",
+           "after clear(), the saved overflow (value, width) pair is pushed back: %s; pushed back exactly when width > 0: %s (%s)" % (ok, guard_ok, guard_detail))
